@@ -9,3 +9,10 @@ import DeepModel.Props.C12
 #print axioms C12.c12_lock_needed
 #print axioms C12.c12_partial_update
 #print axioms C12.c12_progress
+#print axioms C12.c12_tick_survives_iff
+#print axioms C12.c12_timer_issues_every_poll
+#print axioms C12.c12_poll_thread_refines
+#print axioms C12.c12_stop_ends_polling
+#print axioms C12.c12_timer_dies_only_of_base
+#print axioms C12.c12_timer_skeleton_contains_exceptions
+#print axioms C12.c12_update_after_flush_kills_timer
